@@ -231,7 +231,74 @@ def check_props(pid: str):
         return dict(ok=False, theorems=_theorem_names(src), axioms=[], log=log[-4000:], failed=_failed_file(log))
     rc, o, e = sh(f"timeout 600 coqc -Q . FV -w {COQ_W} Props/{pid}.v", cwd=COQ, timeout=700)
     axioms = sorted(set(_axioms(o)))
-    return dict(ok=(rc == 0), theorems=_theorem_names(src), axioms=axioms, log=(o + e)[-4000:], failed=f"Props/{pid}.v" if rc else None)
+    res = dict(ok=(rc == 0), theorems=_theorem_names(src), axioms=axioms, log=(o + e)[-4000:], failed=f"Props/{pid}.v" if rc else None)
+    tie = gen_tie(pid)
+    if tie is not None:
+        res["source_tie"] = {k: tie[k] for k in ("ok", "files", "units", "untranslated", "failed")}
+        res["theorems"] = res["theorems"] + tie["theorems"]
+        res["axioms"] = sorted(set(res["axioms"]) | set(tie["axioms"]))
+        if not tie["ok"]:
+            res["ok"] = False
+            res["failed"] = res["failed"] or tie["failed"]
+            res["log"] = (res["log"] + "\n--- source tie (py2coq) ---\n" + tie["log"])[-6000:]
+    return res
+
+
+def gen_tie(pid: str):
+    """Second tie to the code: translate the listed methods of /repo's CURRENT source to Gallina (harness/py2coq.py),
+    compile the result, and compile coq/Gen/Eq*.v (generated definition = hand-written model, for every number
+    system; property theorems re-stated over the generated definitions) against it.  None when the property has no
+    translated part."""
+    import shutil
+    from gen_units import EQ, translate
+
+    files = EQ.get(pid)
+    if not files:
+        return None
+    d = os.path.join(BUILD, f"gen_{pid}_{os.getpid()}")
+    os.makedirs(d, exist_ok=True)
+    out = dict(ok=True, files=files, theorems=[], axioms=[], log="", failed=None, untranslated={}, units=0)
+    try:
+        try:
+            text, errors = translate(REPO)
+        except Exception as e:  # noqa: BLE001  (fail-closed: a source the translator cannot even parse)
+            out.update(ok=False, failed="py2coq translation", log=repr(e))
+            return out
+        out["untranslated"] = errors
+        out["units"] = text.count("\nDefinition ")
+        with open(os.path.join(d, "GSrc.v"), "w") as f:
+            f.write(text)
+        flags = f"-Q {COQ} FV -Q . FVG -w {COQ_W}"
+        rc, o, e = sh(f"timeout 300 coqc {flags} GSrc.v", cwd=d, timeout=330)
+        if rc != 0:
+            out.update(ok=False, failed="GSrc.v (generated from the source) does not type-check", log=(o + e)[-3000:])
+            return out
+        for fn in files:
+            shutil.copy(os.path.join(COQ, "Gen", fn), os.path.join(d, fn))
+            rc, o, e = sh(f"timeout 600 coqc {flags} {fn}", cwd=d, timeout=630)
+            names = [n for n in _theorem_names(os.path.join(d, fn))]
+            out["theorems"] += [f"Gen.{fn[:-2]}.{n}" for n in names]
+            out["axioms"] += _axioms(o)
+            if rc != 0:
+                m = re.findall(r'File "\./([^"]+)", line (\d+)', o + e)
+                where = f"Gen/{m[-1][0]}:{m[-1][1]}" if m else f"Gen/{fn}"
+                lemma = _lemma_at(os.path.join(d, fn), int(m[-1][1])) if m else None
+                out.update(ok=False, failed=f"{where}" + (f" ({lemma})" if lemma else "") + " -- generated definition no longer equals the model" + (f"; untranslated: {errors}" if errors else ""), log=(o + e)[-3000:])
+                return out
+        return out
+    finally:
+        shutil.rmtree(d, ignore_errors=True)
+
+
+def _lemma_at(path, line):
+    name = None
+    for i, l in enumerate(open(path), 1):
+        m = re.match(r"\s*(Theorem|Lemma|Corollary|Example|Fact)\s+([A-Za-z_0-9']+)", l)
+        if m:
+            name = m.group(2)
+        if i >= line:
+            break
+    return name
 
 
 def _failed_file(log):
@@ -495,7 +562,11 @@ class Check:
                 "axioms reported by Print Assumptions: " + (", ".join(proof.get("axioms", [])) or "none (closed under the global context)"),
                 "hand-written Gallina models, tied to /repo by this run's correspondence check (differential testing, not proof)",
                 "harness/*.py, CPython 3.12, NumPy/SciPy as installed",
-            ],
+            ] + ([
+                f"source tie: harness/py2coq.py (fail-closed translator, semantics assumed as stated in its header; typing hints in harness/gen_units.py) "
+                f"generated {proof['source_tie']['units']} definitions from /repo's current source; coq/Gen/{', '.join(proof['source_tie']['files'])} prove them equal to the model "
+                f"(ok={proof['source_tie']['ok']}; not translated: {proof['source_tie']['untranslated'] or 'none'})"
+            ] if proof.get("source_tie") else []),
             theorems=proof.get("theorems", []),
             evaluations=self.evals,
             distinct_nontrivial=len(self.nontrivial),
